@@ -192,7 +192,8 @@ func (k *Keeper) SetTaskResultInfo(
 			)
 		}
 		// check parameters
-		if info.BlsSignature == nil {
+		// an empty signature is stored as an absent field and read back as nil
+		if len(info.BlsSignature) == 0 {
 			return errorsmod.Wrap(
 				types.ErrParamNotEmptyError,
 				fmt.Sprintf("SetTaskResultInfo: invalid param BlsSignature is not be null (BlsSignature: %s)", info.BlsSignature),
